@@ -326,6 +326,17 @@ func genScenario(r *rand.Rand, np int, hostile bool) *scenario {
 		}
 		sc.weights = &w
 	}
+	if hostile && r.Intn(5) == 0 {
+		// weights a RelayWeightsProposal may set (no validation): near the LegacyDec limit the weighted sum overflows
+		w := [5]*big.Int{}
+		for i := range w {
+			w[i] = new(big.Int).Mul(new(big.Int).Exp(bi(10), bi(int64(74+r.Intn(4))), nil), e18)
+			if r.Intn(4) == 0 {
+				w[i] = new(big.Int).Set(e18)
+			}
+		}
+		sc.weights = &w
+	}
 	switch r.Intn(10) {
 	case 0:
 		sc.ts = int64(r.Intn(7))
@@ -1286,7 +1297,10 @@ func TestCorr(t *testing.T) {
 		"rankValidators (1..8 validators, tie-heavy metrics, random weights; scores compared exactly), PickValidatorForMessage through the real evm keeper with real treasury+metrix stores " +
 		"(0..8 snapshot validators, missing chain accounts / fee records / metrics, MEV trait mixes, duplicate entries, 3 requirement settings, block times incl. small and negative) " +
 		"and the same request through AddSmartContractExecutionToConsensus (queue before/after), calculateFeesForEstimate through treasury, and queue histories of 3..12 ops " +
-		"(Put of 4 action kinds / foreign payloads, estimates, end-block election with fees, public-access / error reports, delete) with GetMessagesForRelaying per validator after every op. " +
+		"(Put of 4 action kinds / foreign payloads, estimates, end-block election with fees, public-access / error reports, delete) with GetMessagesForRelaying per validator after every op; " +
+		"system histories of 5..13 ops on one turnstone queue with CHANGING tables (validators leave / join the snapshot, accounts, traits, prices, metrics, fund fees, turnstone id), every message entering through a real " +
+		"enqueueing caller (logic call, user upload, compass upload, handover [hook], valset update), error proofs attested through the real attestation router (retries), offers per validator after every op; " +
+		"queues of > 1000 relayable messages (response cap); governance-sized relay weights (ranking overflow). " +
 		"non-trivial = successful pick among >= 2 validators / history with >= 2 puts and a rejected or fee-setting op / non-panicking arithmetic")
 	p := newPool(r, 8)
 	search := run.N > 0 && (strings.TrimSpace(getenv("VERIF_SEARCH")) == "1")
@@ -1295,13 +1309,23 @@ func TestCorr(t *testing.T) {
 	nPick := run.N * 30 / 100
 	nFees := run.N * 10 / 100
 	nQueue := run.N - nDec - nRank - nPick - nFees
+	nSys := run.N * 8 / 100
 	if search {
 		nDec, nRank = nDec/3, nRank/3
 		nPick += nDec
 		nQueue += nRank
+		nSys *= 2
 	}
 	replayCorpus(t, run, p)
 	doReassign(t, run, p)
+	// second round: witnesses of the theorems replayed on the real keepers, then the random histories
+	doSys(t, run, p, rand.New(rand.NewSource(1)), []string{"request", "tables", "submit", "endblock", "request:bob", "attest-error", "submit", "endblock", "attest-error", "attest-error"})
+	doOverflowWitness(t, run, p)
+	doAuxQueues(t, run, p)
+	nCap := 1 + run.N/4000
+	for i := 0; i < nCap; i++ {
+		doCap(t, run, p, r)
+	}
 	for i := 0; i < nDec; i++ {
 		doDec(run, r)
 	}
@@ -1318,10 +1342,15 @@ func TestCorr(t *testing.T) {
 	for i := 0; i < nFees/2; i++ {
 		doUpsert(t, run, p, r)
 	}
-	for i := 0; i < nQueue; i++ {
-		doQueue(t, run, p, r, r.Intn(100) < 15)
+	for i := 0; i < nQueue || i < nSys; i++ {
+		if i < nQueue {
+			doQueue(t, run, p, r, r.Intn(100) < 15)
+		}
+		if i < nSys { // interleaved so that the shards stay balanced
+			doSys(t, run, p, r, nil)
+		}
 	}
-	if err := run.Finish("Base.Dec Evm.Assign Cons.Fees Cons.Relay Corr.C14", "C14.case", "C14.check"); err != nil {
+	if err := run.Finish("Base.Dec Evm.Assign Cons.Fees Cons.Relay Cons.RelaySys Corr.C14", "C14.case", "C14.check"); err != nil {
 		t.Fatal(err)
 	}
 }
